@@ -184,7 +184,11 @@ func (f *FG) EnumSegment(from, fromIdx int, stopBlk map[int]bool, limit int) (pa
 		br := f.BranchOf(b)
 		for si, s := range b.Succs {
 			k := edgeKey{int(b.Index), int(s.Index)*2 + si}
-			if used[k] >= 1 {
+			maxUse := 1
+			if f.MaxEdgeUse > 1 {
+				maxUse = f.MaxEdgeUse
+			}
+			if used[k] >= maxUse {
 				continue
 			}
 			used[k]++
